@@ -37,7 +37,7 @@ def gen_cases(rng, tier):
         cases.append({'kind': 'extents', 'norb': norb, 'na': na, 'nb': nb})
         ops = ['graph', 'apply_sparse', 'evolve_ind', 'evolve_diag', 's2']
         if norb <= 16:
-            ops += ['apply_r2', 'rdm12', 'evolve_dc', 'evolve_quad', 'apply_gso1']
+            ops += ['apply_r2', 'rdm12', 'evolve_dc', 'evolve_quad', 'apply_gso1', 'apply_gso1_col']
         else:
             ops += ['apply_r1']
         if norb <= 6:
@@ -45,7 +45,7 @@ def gen_cases(rng, tier):
         if norb <= 33 and comb(norb, na) * comb(norb, nb) <= 3000 and norb > 16:
             ops += ['evolve_dc', 'evolve_quad']
         for op in ops:
-            if op == 'apply_gso1' and norb > 8:
+            if op in ('apply_gso1', 'apply_gso1_col') and norb > 8:
                 continue
             cases.append({'kind': 'kern', 'norb': norb, 'na': na, 'nb': nb, 'op': op, 'seed': rng.randrange(10 ** 6)})
     return cases
@@ -143,11 +143,22 @@ def extra_checks(bdir, model, rng, tier, stats):
         adir, env = core.ensure_asan_build()
     except core.BuildError as e:
         return [('sanitizer build failed: %s' % str(e)[-300:], {'property': PID}, None)]
+    env = dict(env, FQE_VERIF_GUARD='1')
     res = core.run_impl(adir, 'c13', cases, 'C', threads=4, extra_env=env, timeout=3000)
     nrep = 0
     for c, r in zip(cases, res):
         stats['evaluations'] += 1
         if r is None:
+            continue
+        if r.get('guard_nan_in_output') or r.get('guard_band_damaged'):
+            what = 'read outside its coefficient matrix (NaN from the guard band reached the result)' if r.get('guard_nan_in_output') \
+                else 'wrote outside its coefficient matrix (guard band damaged)'
+            out.append(('kernel %s on (norb,na,nb)=(%d,%d,%d) %s' % (c['op'], c['norb'], c['na'], c['nb'], what),
+                        {'property': PID, 'case': c, 'result': {k: v for k, v in r.items() if k != 'raw'},
+                         'how': 'FQE_VERIF_GUARD=1: coefficient matrices are views into NaN-padded buffers (harness/props/c10.py)'}, None))
+            nrep += 1
+            if nrep >= 4:
+                break
             continue
         if 'crash' in r:
             txt = r.get('stderr', '')
